@@ -115,7 +115,7 @@ pub fn set_px_then_observe() {
     let v = sds1(b'v');
     let r = ex.verif_set("k", &v, &None, &Some(px), &None, &None, &false, &false, &false, &false);
     let e = is_err(&r);
-    vcheck!(e == (px <= 0), "set px:error iff px <= 0");
+    vcheck!(e == (px <= 0 || (px as i128) > i64::MAX as i128 - now as i128), "set px:error iff px <= 0 or the deadline leaves i64");
     if !e {
         let dt = vs::u64();
         vs::assume(dt < (1u64 << 40));
@@ -150,7 +150,7 @@ pub fn set_ex_then_observe() {
     let v = sds1(b'v');
     let r = ex.verif_set("k", &v, &Some(s), &None, &None, &None, &false, &false, &false, &false);
     let e = is_err(&r);
-    vcheck!(e == (s <= 0 || (s as i128) * 1000 > i64::MAX as i128), "set ex:error iff s <= 0 or out of range");
+    vcheck!(e == (s <= 0 || (s as i128) * 1000 > i64::MAX as i128 - now as i128), "set ex:error iff s <= 0 or the deadline leaves i64");
     if !e {
         let dt = vs::u64();
         vs::assume(dt < (1u64 << 40));
